@@ -9,10 +9,12 @@ Local Open Scope N_scope.
 
 Lemma exec_pofr st a : st_phase st <> HelloPending -> pofr (exec st a) = pofr st.
 Proof.
-  intros Hp. destruct a as [t|o cb|o cb]; cbn [exec].
+  intros Hp. destruct a as [t|o cb|o cb|key [cb|]]; cbn [exec].
   - apply calls_step_pofr. exact Hp.
   - apply register_pofr.
   - apply cancel_pofr.
+  - rewrite register_pofr. apply get_object_pofr. exact Hp.
+  - apply get_object_pofr. exact Hp.
 Qed.
 
 Lemma pofr_phase st st' : pofr st' = pofr st -> st_phase st' = st_phase st.
@@ -108,7 +110,11 @@ End Keep.
 (* every proxy stays registered with the object handler *)
 Lemma exec_reg st a : all_reg (st_objs st) -> all_reg (st_objs (exec st a)).
 Proof.
-  intros H. destruct a as [t|o cb|o cb]; cbn [exec].
+  intros H.
+  assert (Hmk : forall key, all_reg (st_objs (get_object false st PkExplicit key))).
+  { intros key. unfold get_object. cbn [set_objdone set_objs st_objs set_nreq negb].
+    apply Forall_app. split; [exact H | repeat constructor]. }
+  destruct a as [t|o cb|o cb|key [cb|]]; cbn [exec]; [| | |cbn [register set_objs st_objs]; apply upd_cbs_reg; apply Hmk|apply Hmk].
   - unfold calls_step. apply deliver_reg. exact H.
   - destruct o; [exact H|]. cbn [register set_objs st_objs]. apply upd_cbs_reg. exact H.
   - unfold cancel. destruct o as [|q].
@@ -134,10 +140,12 @@ Lemma exec_calls st a :
   st_calls (exec st a) = st_calls st \/
   exists t, a = ACall t /\ st_calls (exec st a) = Calls.step (st_calls st) (ECall CkNormal t RsNoCheck).
 Proof.
-  destruct a as [t|o cb|o cb]; cbn [exec].
+  destruct a as [t|o cb|o cb|key [cb|]]; cbn [exec].
   - right. exists t. split; [reflexivity|]. unfold calls_step. apply deliver_calls.
   - left. apply register_calls.
   - left. apply cancel_calls.
+  - left. rewrite register_calls. reflexivity.
+  - left. reflexivity.
 Qed.
 
 Lemma reach_step s0 c e : ReachC s0 c -> ReachC s0 (Calls.step c e).
@@ -552,10 +560,11 @@ Qed.
 Lemma exec_regs_untouched st a :
   touches_proxy [a] = false -> regs_of (st_objs (exec st a)) = regs_of (st_objs st).
 Proof.
-  intros H. destruct a as [t|[|q] cb|[|q] cb]; cbn [exec]; try discriminate H.
+  intros H. destruct a as [t|[|q] cb|[|q] cb|key [cb|]]; cbn [exec]; try discriminate H.
   - unfold calls_step. apply deliver_regs.
   - reflexivity.
   - unfold cancel. destruct (mem cb (st_dcbs st)); reflexivity.
+  - unfold get_object. cbn [set_objdone set_objs st_objs set_nreq]. apply regs_of_snoc_empty.
 Qed.
 
 Lemma fold_exec_regs_untouched l : forall st,
@@ -611,4 +620,39 @@ Proof.
   - rewrite registered_eq, filter_conn_registered in Hin.
     apply in_map_iff in Hin as [c [E Hc]]. injection E as ->. exact Hc.
   - apply filter_In in Hin as [_ Hf]. discriminate Hf.
+Qed.
+
+(* which proxy-level callbacks run: exactly those on the proxies that exist when the connection-level
+   callbacks have finished, with the callback lists they have then.  So a proxy created by a
+   connection-level callback during the loss is notified, one created by a proxy-level callback is not. *)
+Lemma proxy_callback_ran_iff acts addr s0 pre r q cb r' :
+  st_phase (run_re acts addr s0 pre) = Ready ->
+  In (OProxy q, cb, r') (sn_ran (snap (run_re acts addr s0 (pre ++ [ECalls (ELost r)])))) <->
+  r' = r /\ exists p, In p (st_objs (conn_phase acts (set_open (run_re acts addr s0 pre) false) r)) /\
+                      po_req p = q /\ In cb (po_cbs p).
+Proof.
+  intros Hph. destruct (loss_reentrant acts addr s0 pre r [] Hph) as [H _].
+  destruct H as (_ & _ & _ & _ & _ & _ & _ & Hperm & _).
+  set (m := conn_phase acts (set_open (run_re acts addr s0 pre) false) r) in *.
+  assert (Hexp : In (OProxy q, cb, r')
+                    (expected_runs_reentrant r (snap (run_re acts addr s0 pre)) (snap m)) <->
+                 r' = r /\ In (OProxy q, cb) (regs_of (st_objs m))).
+  { unfold expected_runs_reentrant, with_reason. rewrite in_map_iff. split.
+    - intros [[o c] [E Hin]]. cbn [fst snd] in E. injection E as -> -> ->. split; [reflexivity|].
+      apply in_app_or in Hin as [Hin|Hin].
+      + apply filter_In in Hin as [_ Hf]. discriminate Hf.
+      + rewrite registered_eq, filter_proxy_registered in Hin. exact Hin.
+    - intros [-> Hin]. exists (OProxy q, cb). split; [reflexivity|].
+      apply in_or_app. right. rewrite registered_eq, filter_proxy_registered. exact Hin. }
+  assert (Hregs : In (OProxy q, cb) (regs_of (st_objs m)) <->
+                  exists p, In p (st_objs m) /\ po_req p = q /\ In cb (po_cbs p)).
+  { unfold regs_of. rewrite in_flat_map. split.
+    - intros [p [Hp Hin]]. apply in_map_iff in Hin as [c [E Hc]]. injection E as <- <-.
+      exists p. repeat split; assumption.
+    - intros [p [Hp [<- Hc]]]. exists p. split; [exact Hp|]. apply in_map_iff. exists cb. split; [reflexivity | exact Hc]. }
+  split.
+  - intros Hin. apply (Permutation_in _ Hperm) in Hin. apply Hexp in Hin as [E Hin].
+    split; [exact E | apply Hregs; exact Hin].
+  - intros [E Hp]. apply (Permutation_in _ (Permutation_sym Hperm)). apply Hexp.
+    split; [exact E | apply Hregs; exact Hp].
 Qed.
